@@ -334,7 +334,31 @@ def r53_point_branches(ctx, res):
     g = ctx.cfg(m)
     n += 1
     ok, why = False, "no loop over all faces"
+    # comprehension form of the universal quantifier:  return not any(<outside test> for f in self.convex_polygons)
+    #                                                  return all(<inside test> for f in self.convex_polygons)
+    from ..astutil import expand_locals as _xl
+    smq = eng.summary(m, (S("ConvexPolyhedron"), S("Point")))
+    prets = [r for r in walk_local(m.node) if isinstance(r, ast.Return) and smq is not None and id(r) in smq.reached]
+    accepting = [r for r in prets if not (isinstance(r.value, ast.Constant) and r.value.value is False)]
+    if len(accepting) == 1 and accepting[0].value is not None:
+        v = _xl(m.node, accepting[0].value, m.params)
+        q = None
+        if isinstance(v, ast.UnaryOp) and isinstance(v.op, ast.Not) and isinstance(v.operand, ast.Call) and txt(v.operand.func) == "any":
+            q = v.operand
+        elif isinstance(v, ast.Call) and txt(v.func) == "all":
+            q = v
+        if q is not None and len(q.args) == 1 and isinstance(q.args[0], (ast.GeneratorExp, ast.ListComp)):
+            ge = q.args[0]
+            if len(ge.generators) == 1 and not ge.generators[0].ifs and txt(ge.generators[0].iter) == "%s.convex_polygons" % me \
+                    and isinstance(ge.generators[0].target, ast.Name):
+                names = {x.id for x in ast.walk(ge.elt) if isinstance(x, ast.Name)}
+                if other in names and ge.generators[0].target.id in names:
+                    ok, why = True, "`%s` quantifies over every face of %s.convex_polygons" % (txt(v)[:50], me)
+                else:
+                    why = "the per-face test does not depend on the point and the face"
     for h in [x for x in g.nodes.values() if x.kind == "loop"]:
+        if ok:
+            break
         if txt(h.ast.iter) != "%s.convex_polygons" % me:
             continue
         conds = [c for c in g.conds() if h.id in c.loops]
@@ -408,54 +432,68 @@ def r55_inclusive_thresholds(ctx, res, cnames=("Line", "Plane", "Segment", "Half
             raise AnalysisError("%s.__contains__ was not evaluated on a Point" % cname)
         seen = set()
         g = ctx.cfg(m)
-        for st in walk_local(m.node):
-            if not isinstance(st, ast.stmt) or id(st) not in sm.reached:
-                continue
-            # only the statement's own expressions (nested statements are visited on their own)
-            exprs = []
-            if isinstance(st, (ast.If, ast.While)):
-                exprs = [st.test]
-            elif isinstance(st, (ast.Return, ast.Assign, ast.AugAssign, ast.Expr)) and getattr(st, "value", None) is not None:
-                exprs = [st.value]
-            for ex in exprs:
-                for c in ast.walk(ex):
-                    if not isinstance(c, ast.Compare) or id(c) in seen:
-                        continue
-                    seen.add(id(c))
-                    if not all(isinstance(o, (ast.Lt, ast.LtE, ast.Gt, ast.GtE)) for o in c.ops):
-                        continue
-                    sides = [c.left] + list(c.comparators)
-                    # integer bookkeeping (len(), indices) is not a geometric threshold
-                    if any(isinstance(x, ast.Call) and isinstance(x.func, ast.Name) and x.func.id in ("len", "range") for sd in sides for x in ast.walk(sd)):
-                        continue
-                    tys = [set(map(str, eng.types_at(m, sd))) for sd in sides]
-                    if not all(t <= {"num", "bool"} and t for t in tys):
-                        continue
-                    if isinstance(st, (ast.If, ast.While)):
-                        # a branching test decides membership only if one of its outcomes rejects directly
-                        # (return False / flag = False); an exact pre-check that falls through to the tolerant test is harmless
-                        rejecting = False
-                        for cn in g.conds():
-                            if cn.ast is c or any(x is c for x in ast.walk(cn.ast)):
-                                for y, _l in g.succ[cn.id]:
-                                    ya = g.nodes[y].ast
-                                    if g.nodes[y].kind == "return" and isinstance(ya.value, ast.Constant) and ya.value.value is False:
-                                        rejecting = True
-                                    if isinstance(ya, ast.Assign) and isinstance(ya.value, ast.Constant) and ya.value.value is False:
-                                        rejecting = True
-                        if not rejecting:
-                            continue
-                    n += 1
-                    deps = set()
-                    for sd in sides:
-                        deps |= cond_deps(ctx, m, sd)
-                    ok = "get_eps" in deps
-                    res.ob(rule, m.where(c), "Point in %s: `%s`" % (cname, txt(c)[:60]), ok,
-                           "threshold depends on the live tolerance get_eps()" if ok else "exact threshold: no tolerance margin")
-                    if not ok:
-                        res.violation(rule, m, c, "`Point in %s` decides with the exact comparison `%s`: points on the boundary (where the "
-                                      "compared quantity is zero up to float noise) are rejected, but boundary points count as contained"
-                                      % (cname, txt(c)[:60]), construct="Point in %s: exact threshold `%s`" % (cname, txt(c)[:40]))
+        # the Point branch and the private helper methods of the same object it calls (`self._inside_all_edges(p)`)
+        bodies = [(m, g, sm.reached)]
+        for st0 in walk_local(m.node):
+            if isinstance(st0, ast.stmt) and id(st0) in sm.reached:
+                for c0 in ast.walk(st0):
+                    if isinstance(c0, ast.Call) and isinstance(c0.func, ast.Attribute) and isinstance(c0.func.value, ast.Name) \
+                            and c0.func.value.id == m.self_name and c0.func.attr.startswith("_") and not c0.func.attr.startswith("__"):
+                        hm = ctx.repo.cls(cname).lookup(c0.func.attr)
+                        if hm is not None and all(hm is not b_[0] for b_ in bodies) and len(bodies) < 5:
+                            reached_h = set()
+                            for _, sh in eng.summaries_of(hm):
+                                reached_h |= sh.reached
+                            bodies.append((hm, ctx.cfg(hm), reached_h))
+        for m_, g, reached_ in bodies:
+          for st in walk_local(m_.node):
+              if not isinstance(st, ast.stmt) or id(st) not in reached_:
+                  continue
+              # only the statement's own expressions (nested statements are visited on their own)
+              exprs = []
+              if isinstance(st, (ast.If, ast.While)):
+                  exprs = [st.test]
+              elif isinstance(st, (ast.Return, ast.Assign, ast.AugAssign, ast.Expr)) and getattr(st, "value", None) is not None:
+                  exprs = [st.value]
+              for ex in exprs:
+                  for c in ast.walk(ex):
+                      if not isinstance(c, ast.Compare) or id(c) in seen:
+                          continue
+                      seen.add(id(c))
+                      if not all(isinstance(o, (ast.Lt, ast.LtE, ast.Gt, ast.GtE)) for o in c.ops):
+                          continue
+                      sides = [c.left] + list(c.comparators)
+                      # integer bookkeeping (len(), indices) is not a geometric threshold
+                      if any(isinstance(x, ast.Call) and isinstance(x.func, ast.Name) and x.func.id in ("len", "range") for sd in sides for x in ast.walk(sd)):
+                          continue
+                      tys = [set(map(str, eng.types_at(m_, sd))) for sd in sides]
+                      if not all(t <= {"num", "bool"} and t for t in tys):
+                          continue
+                      if isinstance(st, (ast.If, ast.While)):
+                          # a branching test decides membership only if one of its outcomes rejects directly
+                          # (return False / flag = False); an exact pre-check that falls through to the tolerant test is harmless
+                          rejecting = False
+                          for cn in g.conds():
+                              if cn.ast is c or any(x is c for x in ast.walk(cn.ast)):
+                                  for y, _l in g.succ[cn.id]:
+                                      ya = g.nodes[y].ast
+                                      if g.nodes[y].kind == "return" and isinstance(ya.value, ast.Constant) and ya.value.value is False:
+                                          rejecting = True
+                                      if isinstance(ya, ast.Assign) and isinstance(ya.value, ast.Constant) and ya.value.value is False:
+                                          rejecting = True
+                          if not rejecting:
+                              continue
+                      n += 1
+                      deps = set()
+                      for sd in sides:
+                          deps |= cond_deps(ctx, m_, sd)
+                      ok = "get_eps" in deps
+                      res.ob(rule, m_.where(c), "Point in %s: `%s`" % (cname, txt(c)[:60]), ok,
+                             "threshold depends on the live tolerance get_eps()" if ok else "exact threshold: no tolerance margin")
+                      if not ok:
+                          res.violation(rule, m_, c, "`Point in %s` decides with the exact comparison `%s`: points on the boundary (where the "
+                                        "compared quantity is zero up to float noise) are rejected, but boundary points count as contained"
+                                        % (cname, txt(c)[:60]), construct="Point in %s: exact threshold `%s`" % (cname, txt(c)[:40]))
     ctx.require(res, rule, n, minimum, "threshold comparisons in the Point branches")
 
 
